@@ -259,21 +259,27 @@ def step (cd : Codec) (s : St) (op : Op) (hs : List (List Key)) : St × Obs :=
 
 /-! ## the property as an executable judge: a map with expiry
 
-Per key the judge remembers the last stored value with its deadline on the backend's clock (`dV`) and
-on the in-memory layer's clock (`dW` = the later of the store's own TTL deadline and the latest
-back-fill deadline), or that the key was deleted. It is written from the property text and never
-looks at the model of the wrappers. -/
+Per key the judge remembers the last stored value with its deadline on the backend's clock (`dV` =
+time of the store + TTL), the deadline of the copy the in-memory layer may hold on that layer's
+clock (`dW`: the store's own TTL deadline, or `fill + default retention` after a back-fill) and the
+in-memory clock reading `fill` of the latest back-fill since the store (`none` = no back-fill since
+the store), or that the key was deleted. It is written from the property text and never looks at the
+model of the wrappers. What it reads off the implementation besides results is which keys the
+in-memory layer holds just before the operation (`held`, the layer's own key list). -/
 
 inductive JEnt
   | never
   | deleted
-  | present (val : Bytes) (dV dW : Int)
+  | present (val : Bytes) (dV dW : Int) (fill : Option Int)
   deriving DecidableEq, Repr
 
-/-- what the judge needs to know about the stack: is there an in-memory layer and its default retention. -/
+/-- what the judge needs to know about the stack: is there an in-memory layer, its default
+retention, and the version prefixes applied above it (outermost first): the in-memory layer sees
+client key `k` as `lruKey up k`. -/
 structure JCfg where
   hasLru : Bool
   dttl : Int
+  up : List Nat
   deriving Repr
 
 abbrev Spec := List (Key × JEnt)
@@ -285,36 +291,58 @@ structure JSt where
   V : Int
   W : Int
 
-/-- may the value `v` be returned for `k` now? (reasons why not) -/
-def checkRead (cfg : JCfg) (j : JSt) (keys : List Key) (k : Key) (v : Bytes) : List String :=
+/-- the name of client key `k` inside the in-memory layer. -/
+def lruKey (up : List Nat) (k : Key) : Key := up.foldl (fun k n => addVersion n k) k
+
+/-- the in-memory layer holds a copy of `k` that is within its own deadline `dW`: it answers the
+read itself and nothing is fetched from below (no back-fill, the deadline is NOT re-armed). -/
+def servedLocally (cfg : JCfg) (held : List Key) (W dW : Int) (k : Key) : Bool :=
+  cfg.hasLru && held.contains (lruKey cfg.up k) && decide (W < dW)
+
+/-- may the value `v` be returned for `k` now? (reasons why not). Either the in-memory layer holds
+the entry within its retention, or the entry is within its TTL on the backend's clock. -/
+def checkRead (cfg : JCfg) (held : List Key) (j : JSt) (keys : List Key) (k : Key) (v : Bytes) : List String :=
   (if keys.contains k then [] else ["read-unrequested-key"]) ++
   match j.spec.get k with
   | .never => ["read-never-stored"]
   | .deleted => ["read-after-delete"]
-  | .present val dV dW =>
+  | .present val dV dW _ =>
     (if v = val then [] else ["read-not-last-stored"]) ++
-    (if j.V < dV ∨ (cfg.hasLru = true ∧ j.W < dW) then [] else ["read-after-deadline"])
+    (if servedLocally cfg held j.W dW k = true ∨ j.V < dV then [] else ["read-after-deadline"])
 
-/-- a read that returned `k` while the backend's entry was within its TTL may have (re)filled the
-in-memory layer: its default retention counts from now. -/
-def bump (cfg : JCfg) (j : JSt) (σ : Spec) (k : Key) : Spec :=
-  match σ.get k with
-  | .present val dV dW =>
-    if cfg.hasLru = true ∧ j.V < dV then aPut k (.present val dV (max dW (j.W + cfg.dttl))) σ else σ
+/-- a read that returned `k` although the in-memory layer did not serve it itself came from below
+while the entry was within its TTL: the in-memory layer takes a copy (back-fill) whose default
+retention counts from now. A read served by the in-memory layer re-arms nothing. The entry is looked
+up in the judge state `j` before the read. -/
+def refill (cfg : JCfg) (held : List Key) (j : JSt) (σ : Spec) (k : Key) : Spec :=
+  match j.spec.get k with
+  | .present val dV dW _ =>
+    if cfg.hasLru = true ∧ servedLocally cfg held j.W dW k = false ∧ j.V < dV
+    then aPut k (.present val dV (j.W + cfg.dttl) (some j.W)) σ else σ
   | _ => σ
 
-def jstep (cfg : JCfg) (j : JSt) (op : Op) (obs : Obs) : JSt × List String :=
+/-- is the last stored entry of `k` within its TTL on the backend's clock? (`Add` must be refused
+exactly then) -/
+def liveV (j : JSt) (k : Key) : Bool :=
+  match j.spec.get k with
+  | .present _ dV _ _ => decide (j.V < dV)
+  | _ => false
+
+/-- one judge step; `held` = the keys the in-memory layer holds just before the operation. -/
+def jstep (cfg : JCfg) (held : List Key) (j : JSt) (op : Op) (obs : Obs) : JSt × List String :=
   match op, obs with
   | .set k v ttl, _ | .setAsync k v ttl, _ =>
-    ({ j with spec := aPut k (.present v (j.V + ttl) (j.W + ttl)) j.spec }, [])
+    ({ j with spec := aPut k (.present v (j.V + ttl) (j.W + ttl) none) j.spec }, [])
   | .add k v ttl, .added true =>
-    ({ j with spec := aPut k (.present v (j.V + ttl) (j.W + ttl)) j.spec }, [])
-  | .add _ _ _, _ => (j, [])
+    ({ j with spec := aPut k (.present v (j.V + ttl) (j.W + ttl) none) j.spec },
+     if liveV j k then ["add-accepted-over-live-entry"] else [])
+  | .add k _ _, .added false => (j, if liveV j k then [] else ["add-refused-without-live-entry"])
+  | .add _ _ _, _ => (j, ["add-without-outcome"])
   | .setMulti data ttl, _ =>
-    ({ j with spec := data.foldl (fun σ kv => aPut kv.1 (.present kv.2 (j.V + ttl) (j.W + ttl)) σ) j.spec }, [])
+    ({ j with spec := data.foldl (fun σ kv => aPut kv.1 (.present kv.2 (j.V + ttl) (j.W + ttl) none) σ) j.spec }, [])
   | .get keys, .got res _ =>
-    ({ j with spec := res.foldl (fun σ kv => bump cfg j σ kv.1) j.spec },
-     res.flatMap fun kv => checkRead cfg j keys kv.1 kv.2)
+    ({ j with spec := res.foldl (fun σ kv => refill cfg held j σ kv.1) j.spec },
+     res.flatMap fun kv => checkRead cfg held j keys kv.1 kv.2)
   | .get _, _ => (j, ["get-without-result"])
   | .del k, _ => ({ j with spec := aPut k .deleted j.spec }, [])
   | .advV d, _ => ({ j with V := j.V + d }, [])
@@ -322,12 +350,18 @@ def jstep (cfg : JCfg) (j : JSt) (op : Op) (obs : Obs) : JSt × List String :=
   | .advBoth d, _ => ({ j with V := j.V + d, W := j.W + d }, [])
   | .raw _ _ _ _, _ => (j, [])
 
+/-- the keys the (first) in-memory layer of a stack holds — what `VerifLRUKeys` reads. -/
+def heldKeys : List Layer → List Key
+  | [] => []
+  | .lru _ _ e :: _ => e.map (·.1)
+  | _ :: ls => heldKeys ls
+
 /-- run the model and the judge side by side; all reasons the judge raises. -/
 def runJudge (cd : Codec) (cfg : JCfg) : St → JSt → List (Op × List (List Key)) → List String
   | _, _, [] => []
   | s, j, (op, hs) :: rest =>
     let r := step cd s op hs
-    let q := jstep cfg j op r.2
+    let q := jstep cfg (heldKeys s.layers) j op r.2
     q.2 ++ runJudge cd cfg r.1 q.1 rest
 
 /-- final states of the model and of the judge after a run. -/
@@ -335,7 +369,7 @@ def runTo (cd : Codec) (cfg : JCfg) : St → JSt → List (Op × List (List Key)
   | s, j, [] => (s, j)
   | s, j, (op, hs) :: rest =>
     let r := step cd s op hs
-    runTo cd cfg r.1 (jstep cfg j op r.2).1 rest
+    runTo cd cfg r.1 (jstep cfg (heldKeys s.layers) j op r.2).1 rest
 
 /-- no in-memory layer in the stack -/
 def noLru : List Layer → Prop
@@ -386,10 +420,24 @@ def firstLru : List Layer → Option (Nat × Int)
   | .lru sz d _ :: _ => some (sz, d)
   | _ :: ls => firstLru ls
 
+/-- version prefixes applied above the first in-memory layer, outermost first. -/
+def upVers : List Layer → List Nat
+  | [] => []
+  | .lru .. :: _ => []
+  | .ver n :: ls => n :: upVers ls
+  | .snap :: ls => upVers ls
+
 def cfgOf (ls : List Layer) : JCfg :=
   match firstLru ls with
-  | some (_, d) => ⟨true, d⟩
-  | none => ⟨false, 0⟩
+  | some (_, d) => ⟨true, d, upVers ls⟩
+  | none => ⟨false, 0, upVers ls⟩
+
+/-- does the in-memory layer of the stack hold a copy (live or not) of client key `k`? -/
+def holds : List Layer → Key → Bool
+  | [], _ => false
+  | .ver n :: ls, k => holds ls (addVersion n k)
+  | .snap :: ls, k => holds ls k
+  | .lru _ _ e :: _, k => (e.map (·.1)).contains k
 
 /-- final model state and judge state of a run from a fresh system. -/
 def final (cd : Codec) (ls : List Layer) (v0 w0 : Int) (ops : List (Op × List (List Key))) : St × JSt :=
@@ -461,8 +509,18 @@ def insertBy (lt : Bytes → Bytes → Bool) (x : Bytes) : List Bytes → List B
   | [] => [x]
   | y :: ys => if lt x y then x :: y :: ys else y :: insertBy lt x ys
 
-/-- `natsort.Sort` (valid as a model of `sort.Sort` when `natLess` is a strict total order on the input). -/
+/-- `natsort.Sort` (valid as a model of `sort.Sort` when `natLess` orders the input, see `natOrdered`). -/
 def natSort (l : List Bytes) : List Bytes := l.foldr (insertBy natLess) []
+
+/-- decidable condition under which "the naturally sorted list" is well defined: on the names of
+`l`, `natLess` relates two distinct names in exactly one direction and is transitive. (`natLess a a`
+is `true` for every non-empty `a` — natsort's quirk — so irreflexivity is not asked; names that
+differ only in leading zeros of a digit run, e.g. `s1` / `s01`, compare both ways and fail the
+condition.) -/
+def natOrdered (l : List Bytes) : Bool :=
+  l.all fun a => l.all fun b =>
+    (a == b || (natLess a b != natLess b a)) &&
+    l.all fun c => !(natLess a b && natLess b c) || a == c || natLess a c
 
 /-! ### snappy block format decoder (oracle instance of `Codec.dec`; not used in proofs) -/
 
